@@ -83,8 +83,9 @@ AccDt(x) == LET m == DtSignMag(x)  h == Hms(m[3]) IN
 \* the sum rounded to the nearest second (unit = 1000000); see Scale.NearestOK.
 AddDaysOK(x, F, neg, r, unit, floorFirst) ==
   LET x0 == IF floorFirst THEN <<x[1], x[2], 0>> ELSE x IN
-  IF FIsNaN(F) THEN IsErrK(r, EInvalidNumber)
-  ELSE IF FIsInf(F) THEN IsErrK(r, ENumericOverflow)
+  \* (C08/C16 do not name the error kind for a NaN / infinite / unrepresentable offset: any error)
+  IF FIsNaN(F) THEN IsErr(r)
+  ELSE IF FIsInf(F) THEN IsErr(r)
   ELSE
     LET nd == OffsetND(F)
         sgn == (IF neg THEN -1 ELSE 1) * FSg(F)
